@@ -1,5 +1,6 @@
 import P9Model.Driver.Parse
 import P9Model.Wire.Registry
+import P9Model.Transport.Seg
 /-! K1 / K2 drivers: codec and framing correspondence. -/
 namespace P9.Driver
 open P9 P9.Gen
@@ -51,5 +52,35 @@ def k2 (t : Tokens) : String :=
       | .connErr => acc
       | _ => go fuel (i+1) r.rest acc
   " ".intercalate (go (s.length / 7 + 2) 0 s [])
+
+/-- K3: the monitor is segmentation independence itself – the expected outcomes are those of
+the plain byte string (`recv1` over the protocol table); the segmented model `recvSeg` is run
+on the actual chunking as well and must agree (cross-check of `Transport/Seg.lean`). -/
+def k3 (t : Tokens) : String :=
+  let msize := t.nat "msize"
+  let s := t.bytes "stream"
+  let lens := natList (t.getD "chunks" "")
+  let rec cut (ls : List Nat) (b : Bytes) : List Bytes :=
+    match ls with
+    | [] => []
+    | n :: r => b.take n :: cut r (b.drop n)
+  let st : Stream := { chunks := (cut lens s).filter (· ≠ []), eofAttached := t.nat "eof" == 1 }
+  let rec go (fuel : Nat) (i : Nat) (s : Bytes) (st : Stream) (acc : List String) : List String :=
+    match fuel with
+    | 0 => acc
+    | fuel+1 =>
+      let r := recv1 msize maxLen specRegistry s
+      let (o2, st') := recvSeg msize maxLen specRegistry st
+      let acc := acc ++ showOutcome (toString i) r.out ++ (if o2 == r.out then [] else [s!"segmodel{i}-differs"])
+      match r.out with
+      | .connErr => acc
+      | _ => go fuel (i+1) r.rest st' acc
+  -- cross-check of the vectorised model on this chunking: two vectors (7, rest)
+  let n := s.length
+  let vecOk := if n < 7 then true else
+    match readVec (n + 1) [(7, []), (n - 7, [])] st with
+    | some (bufs, _) => bufs == splitBy [7, n - 7] s
+    | none => false
+  " ".intercalate (go (s.length / 7 + 2) 0 s st [] ++ (if vecOk then [] else ["vecmodel-differs"]))
 
 end P9.Driver
